@@ -385,6 +385,43 @@ pub fn gen_families(level: usize, types: &[RType]) -> Vec<RFamily> {
     out
 }
 
+/// A long token: longer than any plausible internal chunk / buffer threshold, with an
+/// escape in the middle and a multi-byte character after it.
+pub fn long_string() -> String {
+    format!("{}\n{}\u{e9}\"{}", "x".repeat(1100), "y".repeat(700), "z".repeat(300))
+}
+
+/// Streams that mix small families with very large ones (a single long token; a family of
+/// >= 64 KiB made of many samples), at every position of a 4-family stream.
+pub fn big_streams() -> Vec<Vec<RFamily>> {
+    let small: Vec<RFamily> = basis_families().into_iter().take(3).collect();
+    let long = long_string();
+    let mut m = RMetric { counter: Some(1.0), ..Default::default() };
+    m.labels = vec![("l".into(), long.clone())];
+    let long_label = RFamily { name: "long_label".into(), help: "h".into(), typ: RType::Counter, metrics: vec![m] };
+    let long_help = RFamily { name: "long_help".into(), help: long.clone(), typ: RType::Gauge, metrics: vec![RMetric { gauge: Some(2.0), ..Default::default() }] };
+    let mut many = vec![];
+    for i in 0..900 {
+        let mut m = RMetric { counter: Some(i as f64), ..Default::default() };
+        m.labels = vec![("path".into(), format!("/some/fairly/long/path/segment/number/{:05}/with/a/tail/to/add/bytes/{}", i, "p".repeat(20))), ("code".into(), format!("{}", 200 + i % 7))];
+        many.push(m);
+    }
+    let huge = RFamily { name: "huge".into(), help: "a family of more than 64 KiB".into(), typ: RType::Counter, metrics: many };
+    let mut hist = RMetric { histogram: Some((3, 1.5, (0..400).map(|i| (i as f64, (i / 100) as u64)).collect())), ..Default::default() };
+    hist.labels = vec![("l".into(), "v".into())];
+    let wide_hist = RFamily { name: "wide_hist".into(), help: "400 buckets".into(), typ: RType::Histogram, metrics: vec![hist] };
+    let mut out = vec![];
+    for big in [long_label, long_help, huge, wide_hist] {
+        for pos in 0..=3 {
+            let mut st = small.clone();
+            st.insert(pos, big.clone());
+            out.push(st);
+        }
+        out.push(vec![big.clone(), big.clone()]);
+    }
+    out
+}
+
 /// A small basis used for multi-family framing (all ordered pairs / triples).
 pub fn basis_families() -> Vec<RFamily> {
     let mut b = vec![];
